@@ -94,6 +94,12 @@ def showIns (d : DataInfo) : String :=
   ",".intercalate (ids.map fun id =>
     s!"{id}:{(d.insType.lookup id).getD 0}:{match d.envelopeMap.lookup id with | some i => (i : Int) | none => -1}")
 
+def render (r : Req) (conv : Conv) (trackList : List (Nat × List MEv)) (seq : List Nat) : String :=
+  let tl := if trackList.isEmpty then "-" else "|".intercalate (trackList.map fun (id, l) => s!"{id}:{showMevs l}")
+  let subs := if conv.subList.isEmpty then "-" else "|".intercalate (conv.subList.map showMevs)
+  let used := if conv.usedData.isEmpty then "-" else ",".intercalate (conv.usedData.map fun (m, i) => s!"{m}:{i}")
+  s!"seq={hexNat seq} tl={tl} subs={subs} macros={conv.macroList.length} used={used} ins={showIns r.data}"
+
 def model (arg : String) : String :=
   match parseReq arg with
   | none => "bad-request"
@@ -103,12 +109,13 @@ def model (arg : String) : String :=
     | .error (.writer e) => werrMsg e
     | .error (.codec .atEmpty) => "exc:out_of_range"
     | .error (.codec .stackEmpty) => "UB:stack-top-on-empty"
-    | .error .macroUnmodelled => "MODEL:unmodelled-macro-track"
-    | .ok c =>
-      let tl := if c.trackList.isEmpty then "-" else "|".intercalate (c.trackList.map fun (id, l) => s!"{id}:{showMevs l}")
-      let subs := if c.conv.subList.isEmpty then "-" else "|".intercalate (c.conv.subList.map showMevs)
-      let used := if c.conv.usedData.isEmpty then "-" else ",".intercalate (c.conv.usedData.map fun (m, i) => s!"{m}:{i}")
-      s!"seq={hexNat c.seq} tl={tl} subs={subs} macros={c.conv.macroList.length} used={used} ins={showIns r.data}"
+    | .error .macroUnmodelled =>
+      -- the first-layer model stops at macro tracks; the constructor model (C09's, over which the whole-song
+      -- theorems are stated) has them
+      match MdsFile.construct r.song r.data (r.volume.map toString) with
+      | .ok b => render r b.conv b.trackList b.seq
+      | .error _ => "MODEL:unmodelled-macro-track"
+    | .ok c => render r c.conv c.trackList c.seq
 
 def showTk : Seq.Tk → String
   | .on n => s!"N{n}"
